@@ -7,6 +7,8 @@ def evaluate(ck, data, rules, docg):
     tab = T.table()
     n_ok = n_paren = n_split = n_pointwise = 0
     for o in T.runs(data):
+        for em in o.get("end_name_mismatch") or []:
+            ck.violation("inserted-end-name-does-not-match:" + em["module"], "%s: the run added the name %r after 'end' of a %s that starts with the name %r" % (T.tag(o), em["found"], em["module"], em["expected"]), T.rep(o, oracle="end-name", detail=em))
         split_fired = False
         if o.get("init_glue") and o.get("end_glue") is False:
             who = T.blame(o, "glue", "init_glue")
